@@ -14,7 +14,7 @@ for f in sorted(os.listdir(os.path.join(V, 'contracts'))):
         continue
     path = os.path.join(V, 'contracts', f)
     specs, _ = gen.parse_sidecar(path)
-    lines = [l for l in open(path).read().split('\n') if not re.match(r'  (locals|params)( |$)', l)]
+    lines = [l for l in open(path).read().split('\n') if not re.match(r'  (locals|params|ops)( |$)', l)]
     out, k = [], 0
     fn_specs = iter(specs)
     for l in lines:
@@ -30,6 +30,9 @@ for f in sorted(os.listdir(os.path.join(V, 'contracts'))):
                 out.append('  params ' + ' '.join(ps))
             if ls:
                 out.append('  locals ' + ' '.join(ls))
+            if not sp.trusted:
+                ops = gen.op_signature(body)
+                out.append('  ops ' + ' '.join('%s:%d' % (o, ops[o]) for o in gen.OPS))
     open(path, 'w').write('\n'.join(out))
     print(f, 'ok')
 
